@@ -51,7 +51,7 @@ pub fn flow_models<C: StateCheck + Copy>(ctx: &Ctx, shared: &Arc<Shared>, c: C, 
     };
     explore(ctx, "VOCAB: every (service, carrier) pair / cogeneration fuel / production source added to a small building, depth<=2", Wide { alphabet: alpha::vocab_letters(), bases: alpha::vocab_base(), max_add: if ctx.quick() { 1 } else { 2 }, repeat: false }, c, shared.clone());
     explore(ctx, "TINY: values around the absolute thresholds of the code (1e-3, 0.01 kWh), depth<=3", Wide { alphabet: alpha::tiny_letters(), bases: alpha::bases(false), max_add: if ctx.quick() { 3 } else { 4 }, repeat: false }, c, shared.clone());
-    explore(ctx, "LONG: complete buildings with 13, 24 and 8760 steps", Wide { alphabet: vec![], bases: alpha::long_bases(), max_add: 0, repeat: false }, c, shared.clone());
+    explore(ctx, "LONG: complete buildings with 13, 24, 31, 52, 365 and 8760 steps", Wide { alphabet: vec![], bases: alpha::long_bases(), max_add: 0, repeat: false }, c, shared.clone());
     if ctx.quick() && spec.heavy_oracle && spec.quick_depth >= 3 {
         // oracles that cost milliseconds per state: full vector set one level less deep, reduced vector set at full depth
         explore(ctx, &format!("FLOW wide T=2 {{0,1,3}} depth<={}", spec.quick_depth - 1), Wide { alphabet: mk(2, &v, Rich::Base), bases: alpha::bases(false), max_add: spec.quick_depth - 1, repeat: false }, c, shared.clone());
